@@ -29,7 +29,7 @@ def registry():
     import checks_core as cc
     reg = {
         'C01': (cc.check_C01, 'apply/ite/negation results vs truth-table oracle; exhaustive pairs over 256 functions of 3 variables, sampled ITE triples, random histories with warm cache / GC / swaps; distinct = distinct (kind, alias, order) enumerations and histories'),
-        'C02': (cc.check_C02, 'every function of 3 variables by 5 routes x orders, canonicity + structure oracle after every step of random interleavings; distinct = route sets and histories'),
+        'C02': (cc.check_C02, 'every function of 3 variables by 8 routes (node by node, connectives, rename, cofactor, two compositions, parsing a DNF formula, copy) x orders, canonicity + structure oracle after every step of random interleavings; distinct = route sets and histories', 'ddvparse'),
         'C03': (cc.check_C03, 'all 256 functions x 8 subsets x 2 quantifiers x orders x fresh/used managers x 4 call forms'),
         'C04': (cc.check_C04, 'all 256 functions x all partial assignments, renaming maps (all 27 in thorough), sampled replacement tuples, orders'),
         'C06': (cc.check_C06, 'all op sequences of length 4 (+ sample of length 5) over a 9-letter alphabet on 2 variables, stale-cache templates, long histories; ledger + reachability oracle'),
@@ -40,7 +40,7 @@ def registry():
     }
     import checks_more as cm
     reg.update({
-        'C09': (cm.check_C09, 'each decorated operation on random scenarios with the reordering request fired at k = 1..K (until it no longer fires), compared with the reordering-disabled run; natural triggering at lowered thresholds in histories'),
+        'C09': (cm.check_C09, 'each decorated operation (incl. add_expr) on random scenarios with the reordering request fired at k = 1..K (until it no longer fires), compared with the reordering-disabled run; natural triggering at lowered thresholds in histories', 'ddvparse'),
         'C11': (cm.check_C11, 'all 256 functions of 3 variables x source/target order pairs, targets with extra variables and pre-existing nodes; dd._copy functions on dd.autoref'),
         'C13': (cm.check_C13, 'exhaustive one primed/unprimed pair (16x16 functions, both orders, all qvars, both quantifiers, names/levels); sampled 2-3 pairs, adjacent and (image) arbitrary orders'),
         'C18': (cm.check_C18, 'all 256 functions, both signs: to_nx / DOT text re-read and evaluated, descendants, len, succ; Function.low/high/var/negated traversal'),
@@ -62,6 +62,116 @@ def _unknown_violations(ctx):
     return [v for v in ctx.violations if lib.match_known(ctx.prop, v, known) is None]
 
 
+def replay(prop, data):
+    """Re-execute a replay file: its protocol lines on the real code and on the model, side by
+    side, then the structural oracle.  Returns an exit code, or None when the replay carries no
+    op list (the check is then simply re-run with the replay's seed)."""
+    print(json.dumps({k: v for k, v in data.items() if k != 'replay'}, indent=1)[:1500])
+    rp = data.get('replay', {})
+    lines = rp.get('lines')
+    if not lines and data.get('broken'):
+        for b in data['broken']:
+            if b.get('lines'):
+                lines = b['lines']
+                break
+    print(json.dumps({k: v for k, v in rp.items() if k != 'lines'}, indent=1, default=str)[:3000])
+    if not lines:
+        return None
+    ctx = lib.Ctx(prop, 'quick', data.get('seed', 0))
+    s = lib.Session(ctx)
+    for ln in lines:
+        if ln == 'reset':
+            continue
+        s._do(ln.split('\tS:')[0])
+    try:
+        out = lib.run_model(s.lines)
+    except Exception as e:  # noqa: BLE001
+        out = [f'(model driver failed: {e!r})'] * len(s.lines)
+    bad = 0
+    for ln, a, m in zip(s.lines, s.answers, out):
+        same = lib.filter_state(a, lib.SECTIONS_L3) == lib.filter_state(m, lib.SECTIONS_L3)
+        bad += (not same)
+        print(('  ' if same else '!!'), ln.replace('\t', ' ')[:120], '|', a[:100], '' if same else '| MODEL: ' + m[:100])
+    probs = []
+    for mid, b in s.impl.mgrs.items():
+        probs += [f'manager {mid}: {p}' for p in lib.check_invariants(b, None)]
+    for p_ in probs[:10]:
+        print('INVARIANT:', p_)
+    s.close()
+    print(f'replayed {len(lines)} lines: {bad} model/implementation differences, {len(probs)} invariant problems')
+    return 1 if (bad or probs) else None
+
+
+def run_shard(prop, fn, seed, k, n):
+    """One shard of a thorough run: generators + correspondence, summary to .work/."""
+    import json as _json
+    ctx = lib.Ctx(prop, 'thorough', seed * 1009 + k)
+    ctx.shard, ctx.nshards = k, n
+    reg = registry()
+    ctx.driver = reg[prop][2] if len(reg[prop]) > 2 else None
+    ctx.budget_s = int(os.environ.get('VERIF_SHARD_S', '420'))
+    rc = 0
+    rounds = 0
+    import random as _random
+    try:
+        # repeat the generators with fresh randomness until the shard's time budget is used
+        while True:
+            fn(ctx)
+            ctx.flush_model()
+            rounds += 1
+            if ctx.time_left() < 0.25 * ctx.budget_s or ctx.violations or ctx.disagreements or rounds >= 200:
+                break
+            ctx.rng = _random.Random((seed * 1009 + k) * 7919 + rounds)
+    except Exception:  # noqa: BLE001
+        traceback.print_exc()
+        rc = 2
+    ctx.notes.append(f'shard {k}: {rounds} rounds')
+    out = dict(rc=rc, evaluations=ctx.evaluations, hashes=sorted(ctx.case_hashes), samples=ctx.samples[:2],
+               dist=ctx.dist, violations=ctx.violations[:50], n_violations=len(ctx.violations),
+               disagreements=ctx.disagreements[:20], lines=ctx.sessions_lines, traces=ctx.traces,
+               notes=ctx.notes, exhaustive=ctx.exhaustive)
+    os.makedirs(lib.WORK, exist_ok=True)
+    with open(os.path.join(lib.WORK, f'shard_{prop}_{k}.json'), 'w') as f:
+        _json.dump(out, f, default=str)
+    return rc
+
+
+def run_shards(ctx, prop, seed):
+    import json as _json
+    import subprocess
+    n = int(os.environ.get('VERIF_SHARDS', '12'))
+    procs = []
+    for k in range(n):
+        env = dict(os.environ, VERIF_SHARD=str(k), VERIF_SHARDS=str(n), VERIF_SEED=str(seed))
+        procs.append(subprocess.Popen(
+            [sys.executable, os.path.abspath(__file__), prop, '--tier', 'thorough'], env=env,
+            stdout=subprocess.DEVNULL, stderr=subprocess.PIPE, text=True))
+    ok = True
+    for k, p in enumerate(procs):
+        _out, err = p.communicate()
+        path = os.path.join(lib.WORK, f'shard_{prop}_{k}.json')
+        if p.returncode != 0 or not os.path.exists(path):
+            print(f'shard {k} failed (rc={p.returncode}):', (err or '')[-800:])
+            ok = False
+            continue
+        with open(path) as f:
+            d = _json.load(f)
+        os.remove(path)
+        ctx.evaluations += d['evaluations']
+        ctx.case_hashes |= set(d['hashes'])
+        ctx.samples.extend(d['samples'])
+        for kk, v in d['dist'].items():
+            ctx.dist[kk] = ctx.dist.get(kk, 0) + v
+        ctx.violations.extend(d['violations'])
+        ctx.disagreements.extend(d['disagreements'])
+        ctx.sessions_lines += d['lines']
+        ctx.traces += d['traces']
+        ctx.notes.extend(x for x in d['notes'] if x not in ctx.notes)
+        ctx.exhaustive = ctx.exhaustive or d['exhaustive']
+    ctx.notes.append(f'thorough: {n} shards, sub-seeds {seed}*1009+k, {os.environ.get("VERIF_SHARD_S", "420")} s budget each')
+    return ok
+
+
 def main():
     ap = argparse.ArgumentParser()
     ap.add_argument('prop')
@@ -77,26 +187,40 @@ def main():
     if args.replay:
         with open(args.replay) as f:
             data = json.load(f)
-        print(json.dumps(data, indent=1)[:4000])
         seed = data.get('seed', seed)
-    fn, rule = reg[args.prop]
+        rc = replay(args.prop, data)
+        if rc is not None:
+            return rc
+    fn, rule = reg[args.prop][:2]
+    driver = reg[args.prop][2] if len(reg[args.prop]) > 2 else None
+    shard = os.environ.get('VERIF_SHARD')
+    if shard is not None:
+        return run_shard(args.prop, fn, seed, int(shard), int(os.environ.get('VERIF_SHARDS', '1')))
     ctx = lib.Ctx(args.prop, tier, seed)
+    ctx.driver = driver
     try:
-        lean = lib.lean_side(args.prop, thorough=(tier == 'thorough'))
+        lean = lib.lean_side(args.prop, thorough=(tier == 'thorough'), driver=driver)
     except Exception:  # noqa: BLE001
         traceback.print_exc()
         return 2
-    try:
-        fn(ctx)
-    except Exception:  # noqa: BLE001
-        traceback.print_exc()
-        return 2
+    if tier == 'thorough' and os.environ.get('VERIF_NO_SHARDS') != '1':
+        # thorough: the generators run as independent shards on all cores, each with its own
+        # sub-seed and time budget; the parent aggregates what they covered and found
+        if not run_shards(ctx, args.prop, seed):
+            return 2
+    else:
+        try:
+            fn(ctx)
+        except Exception:  # noqa: BLE001
+            traceback.print_exc()
+            return 2
     # a proof obligation or the correspondence broke and no failing input was seen yet:
     # search harder on the real code (the property's own thorough generators, bounded in time)
     ctx.flush_model()
     if (not lean['ok'] or ctx.disagreements) and not _unknown_violations(ctx):
         search_s = int(os.environ.get('VERIF_SEARCH_S', '90'))
         ctx2 = lib.Ctx(args.prop, 'thorough', seed + 7919)
+        ctx2.driver = driver
         ctx2.budget_s = search_s
         ctx2.no_model = True
         try:
